@@ -473,7 +473,15 @@ func (x *Exec) sliceOp(st *State, fr *Frame, in *ssa.Slice) Val {
 			capT = mx
 		}
 		x.safety(st, fr, "slice-bounds", in, 0, and(app("<=", "0", lo), app("<=", lo, hi), app("<=", hi, capT)), "slice bounds 0 <= low <= high <= cap")
-		return Term{x.define(st, "sl", "Slice", app("mk_Slice", app("s_arr", s), addT(app("s_off", s), lo), subT(hi, lo), subT(capT, lo))), in.Type()}
+		ns := x.define(st, "sl", "Slice", app("mk_Slice", app("s_arr", s), addT(app("s_off", s), lo), subT(hi, lo), subT(capT, lo)))
+		if lo != "0" {
+			// bridge for E-matching: element i of s[lo:...] is element lo+i of s. Both address terms denote the
+			// same integer; making the second one exist lets facts quantified over the elements of s (triggered
+			// by reads of s) apply to reads through the sub-slice
+			q := x.fresh("i")
+			x.assume(st, "(forall (("+q+" Int)) (! (= (at (s_off "+ns+") "+q+") (at (s_off "+s+") (+ "+lo+" "+q+"))) :pattern ((at (s_off "+ns+") "+q+"))))")
+		}
+		return Term{ns, in.Type()}
 	case *types.Pointer:
 		at := u.Elem().Underlying().(*types.Array)
 		p := x.asPlace(xv, in.X.Type())
